@@ -13,6 +13,7 @@ pub mod c13;
 pub mod c14;
 pub mod c15;
 pub mod c17;
+pub mod c18;
 pub mod c19;
 pub mod c20;
 
@@ -33,6 +34,7 @@ pub fn run(prop: &str, tier: Tier) -> Report {
         "C14" => c14::run(tier),
         "C15" => c15::run(tier),
         "C17" => c17::run(tier),
+        "C18" => c18::run(tier),
         "C19" => c19::run(tier),
         "C20" => c20::run(tier),
         _ => {
@@ -58,6 +60,7 @@ pub fn replay(prop: &str, _tier: Tier, case: &serde_json::Value) -> Vec<Violatio
         "C14" => c14::replay(case),
         "C15" => c15::replay(case),
         "C17" => c17::replay(case),
+        "C18" => c18::replay(case),
         "C19" => c19::replay(case),
         "C20" => c20::replay(case),
         _ => {
@@ -71,6 +74,7 @@ pub fn worker(prop: &str, tier: Tier, args: &[String]) -> i32 {
         "C03" => crate::pool::child(&c03::C03, tier, args),
         "C04" => crate::pool::child(&c04::C04, tier, args),
         "C12" => crate::pool::child(&c12::C12, tier, args),
+        "C18" => crate::pool::child(&c18::C18, tier, args),
         _ => {
             eprintln!("unknown pooled property {prop}");
             2
